@@ -180,6 +180,17 @@ pub fn gen_c11(rng: &mut Rng, thorough: bool) -> Vec<Tagged> {
         let (spec, input, _) = two_block_net(rng, r, 1);
         out.push(("two-blocks-fwd".into(), Case::Net(spec, NetCmd::Forward(rand_input(rng, input, 0)))));
     }
+    // many repetitions (beyond 2^6), skips with every accumulation
+    for (ai, acc) in ALL_ACCS.iter().enumerate() {
+        let loops = [65usize, 70, 130, 66, 129][ai];
+        let n = 2usize;
+        let mut spec = NetSpec::new(Sh::Flat(n).to_shape());
+        let ls = vec![Simple::Dense { out: n, act: Act::Tanh, bias: true, dropout: None }];
+        let bw = vec![rand_w(rng, &ls[0], Sh::Flat(n), 1)];
+        spec.layers.push(LayerSpec::Block { layers: ls, loops, inskips: ai % 2 == 0, outskips: ai != 1, acc: *acc });
+        spec.weights = Some(vec![LW::Block(bw)]);
+        out.push((format!("block-many-repetitions-{:?}", acc), Case::Net(spec, NetCmd::Forward(rand_input(rng, Sh::Flat(n), 0)))));
+    }
     // blocks on flat tensors with more than 2^10 elements, skips with every accumulation
     for acc in ALL_ACCS {
         let nbig = 1100usize;
@@ -244,6 +255,23 @@ pub fn gen_c10(rng: &mut Rng, thorough: bool) -> Vec<Tagged> {
         let data: Vec<(Tensor, Tensor)> = (0..2).map(|_| (rand_input(rng, input, 2), rand_target(rng, outsh, Obj::MSE))).collect();
         out.push(("tied-two-blocks".into(), Case::Net(spec.clone(), NetCmd::Learn { data, val: None, batch: 1 + r % 2, epochs: 2 })));
         out.push(("tied-two-blocks-params".into(), Case::Net(spec, NetCmd::Shapes)));
+    }
+    // many repetitions (beyond 2^6): every copy stays tied
+    for (k, &loops) in [65usize, 70, 130].iter().enumerate() {
+        if !(thorough || k == 0) {
+            continue;
+        }
+        let n = 2usize;
+        let mut spec = NetSpec::new(Sh::Flat(n).to_shape());
+        let ls = vec![Simple::Dense { out: n, act: Act::Tanh, bias: k % 2 == 0, dropout: None }];
+        let bw = vec![rand_w(rng, &ls[0], Sh::Flat(n), 2)];
+        spec.layers.push(LayerSpec::Block { layers: ls, loops, inskips: false, outskips: false, acc: Acc::Mean });
+        spec.weights = Some(vec![LW::Block(bw)]);
+        spec.opt = Opt::SGD { lr: 0.05, decay: None };
+        spec.obj = Obj::MSE;
+        let data = rand_data(rng, 2, Sh::Flat(n), Sh::Flat(n), Obj::MSE);
+        out.push(("tied-many-repetitions".into(), Case::Net(spec.clone(), NetCmd::Learn { data, val: None, batch: 1, epochs: 2 })));
+        out.push(("tied-many-repetitions-params".into(), Case::Net(spec, NetCmd::Shapes)));
     }
     // blocks with a max-pool layer: the parameter-free couple is skipped, the others stay tied
     for r in 0..(if thorough { 36 } else { 12 }) {
@@ -478,6 +506,18 @@ pub fn gen_c17(rng: &mut Rng, thorough: bool) -> Vec<Tagged> {
         let tag = format!("loop-{:?}-k{}{}{}", spec.loopacc, k, if insk { "-inskips" } else { "" }, match r % 3 { 0 => "-dense", 1 => "-spatial", _ => "-flattenboundary" });
         out.push((tag, Case::Net(spec, NetCmd::Forward(x))));
     }
+    // many iterations (beyond 2^6) with every accumulation
+    for (ai, acc) in ALL_ACCS.iter().enumerate() {
+        let k = [65usize, 70, 130, 66, 129][ai];
+        let n = 2usize;
+        let mut spec = NetSpec::new(Sh::Flat(n).to_shape());
+        let d = Simple::Dense { out: n, act: Act::Tanh, bias: true, dropout: None };
+        spec.weights = Some(vec![LW::One(rand_w(rng, &d, Sh::Flat(n), 1))]);
+        spec.layers.push(LayerSpec::One(d));
+        spec.loopacc = *acc;
+        spec.loops = vec![(0, 0, k, ai % 2 == 1)];
+        out.push((format!("loop-{:?}-many-iterations", acc), Case::Net(spec, NetCmd::Forward(rand_input(rng, Sh::Flat(n), 0)))));
+    }
     // loops whose flat output has more than 2^10 elements (dense range 1100 -> 2 -> 1100, and a 1x36x36
     // convolution flattened by the dense layer behind it), every accumulation
     for (ai, acc) in ALL_ACCS.iter().enumerate() {
@@ -678,6 +718,24 @@ pub fn gen_c13(rng: &mut Rng, thorough: bool) -> Vec<Tagged> {
         let with_val = r % 5 != 0;
         let tag = format!("early-lr{}-T{}-E{}{}", lr, th, epochs, if with_val { "" } else { "-noval" });
         out.push((tag, Case::Net(spec, NetCmd::Learn { data, val: if with_val { Some((val, th)) } else { None }, batch: 1, epochs })));
+    }
+    // long epoch budgets and long windows (beyond 2^6 and 2^8 epochs): slowly rising, slowly falling and
+    // zig-zag validation losses
+    for (k, &(epochs, th, lr)) in [(300i32, 65i32, -1e-3f32), (300, 65, 1e-3), (130, 64, -1e-3), (260, 3, 1e-30), (300, 129, -1e-4), (70, 66, 1.0001), (300, 2, 1.9999)].iter().enumerate() {
+        if !(thorough || k < 4) {
+            continue;
+        }
+        let mut spec = NetSpec::new(Sh::Flat(1).to_shape());
+        spec.layers.push(LayerSpec::One(Simple::Dense { out: 1, act: Act::Linear, bias: false, dropout: None }));
+        spec.weights = Some(vec![LW::One(W::Dense(t2(1, 1, &[0.5]), None))]);
+        spec.opt = Opt::SGD { lr, decay: None };
+        spec.obj = Obj::MSE;
+        let data = vec![(t1(vec![1.0]), t1(vec![0.0]))];
+        let val = vec![(t1(vec![1.0]), t1(vec![-1.0]))];
+        out.push((format!("early-long-E{}-T{}", epochs, th), Case::Net(spec.clone(), NetCmd::Learn { data: data.clone(), val: Some((val, th)), batch: 1, epochs })));
+        if k == 3 {
+            out.push((format!("noval-long-E{}", epochs), Case::Net(spec, NetCmd::Learn { data, val: None, batch: 1, epochs })));
+        }
     }
     // the stopping rule looks at the validation LOSS only: trajectories whose validation ACCURACY sets
     // a record exactly at the epoch at which the stop is due (MAE, rate 0.25, weight 0.25 * epoch hits a
@@ -926,6 +984,17 @@ pub fn gen_c12(rng: &mut Rng, thorough: bool) -> Vec<Tagged> {
         out.push(("predict-batch-skipnet".into(), Case::Net(spec.clone(), NetCmd::PredictBatch(data.iter().map(|d| d.0.clone()).collect()))));
         out.push(("predict-skipnet".into(), Case::Net(spec.clone(), NetCmd::Predict(data[0].0.clone()))));
         out.push(("forward-skipnet".into(), Case::Net(spec, NetCmd::Forward(data[0].0.clone()))));
+    }
+    // data sets beyond 2^10 samples (tiny network): every sample enters both means, in order
+    for &nd in (if thorough { &[1023usize, 1025, 2049, 4100][..] } else { &[1025usize][..] }) {
+        let mut spec = NetSpec::new(Sh::Flat(2).to_shape());
+        let d = Simple::Dense { out: 2, act: Act::Tanh, bias: true, dropout: None };
+        spec.weights = Some(vec![LW::One(rand_w(rng, &d, Sh::Flat(2), 2))]);
+        spec.layers.push(LayerSpec::One(d));
+        spec.obj = Obj::MSE;
+        let data = rand_data(rng, nd, Sh::Flat(2), Sh::Flat(2), Obj::MSE);
+        out.push(("validate-huge-dataset".into(), Case::Net(spec.clone(), NetCmd::Validate { data: data.clone(), tol: 0.5, pre_training: false })));
+        out.push(("predict-batch-huge-dataset".into(), Case::Net(spec, NetCmd::PredictBatch(data.iter().map(|d| d.0.clone()).collect()))));
     }
     // degenerate tolerances (zero, negative zero, negative, NaN, denormal, infinite) against predictions that
     // hit, miss by one ulp, or miss their targets: "strictly within the given tolerance" for ALL tolerances
